@@ -364,7 +364,7 @@ pub fn gen_history(rng: &mut Rng, nblocks: u64) -> Vec<BlockSpec> {
     let mut dup_done = false;
     let mut k: u32 = 0;
     make_chain(nblocks, &mut |h| {
-        let ntx = rng.below(4) as usize;
+        let ntx = if h == 1 { 1 + rng.below(3) as usize } else { rng.below(4) as usize };
         let mut txs: Vec<TxSpec> = Vec::new();
         for t in 0..ntx {
             k += 1;
@@ -391,10 +391,14 @@ pub fn gen_history(rng: &mut Rng, nblocks: u64) -> Vec<BlockSpec> {
                 let value = if rng.below(6) == 0 { 0 } else { rng.below(5_000_000_000) };
                 outputs.push(TxOut::new(value, script));
             }
+            if h == 1 && t == 0 {
+                // an address that owns nothing but zero-value outputs (two of them), never spent
+                outputs.push(TxOut::new(0, p2pkh_script(&[0xA7; 20]))); outputs.push(TxOut::new(0, p2pkh_script(&[0xA7; 20])));
+            }
             let mut tx = TxSpec::new(inputs, outputs);
             tx.locktime = k;
             let id = tx.txid();
-            for i in 0..tx.outputs.len() { if rng.below(3) != 0 { spendable.push((id, i as u32)); } }
+            for i in 0..tx.outputs.len() { if rng.below(3) != 0 && !(h == 1 && t == 0 && i + 2 >= tx.outputs.len()) { spendable.push((id, i as u32)); } }
             txs.push(tx);
         }
         txs
@@ -415,4 +419,24 @@ pub fn ref_utxo(chain: &[BlockSpec], s: u64, last: u64) -> std::collections::BTr
         for (ix, o) in tx.outputs.iter().enumerate() { if let Some(a) = addr_of(&o.script) { m.insert((id.clone(), ix as u32), (h, o.value, a)); } }
     } }
     m
+}
+
+/// script type name (Display of ScriptPattern) of the script shapes produced by gen_history, Bitcoin rules
+pub fn type_of(script: &[u8]) -> &'static str {
+    let n = script.len();
+    if n > 0 && script[0] == 0x6a { return "OpReturn"; }
+    if n == 25 && script[0] == 0x76 && script[24] == 0xac { return "Pay2PublicKeyHash"; }
+    if (n == 35 && script[0] == 33 && script[34] == 0xac) || (n == 67 && script[0] == 65 && script[66] == 0xac) { return "Pay2PublicKey"; }
+    if n == 23 && script[0] == 0xa9 && script[22] == 0x87 { return "Pay2ScriptHash"; }
+    if n > 3 && script[n - 1] == 0xae && (0x51..=0x60).contains(&script[0]) { return "Pay2MultiSig"; }
+    "NotRecognised"
+}
+/// blocks of heights s..=last fetched through the real ChainStorage (no driver): Err(text) on the first failure
+pub fn fetch_blocks(dir: &Path, coin: &str, s: u64, last: u64, verify: bool) -> std::result::Result<Vec<Block>, String> {
+    let log = Arc::new(Mutex::new(Vec::new()));
+    let opts = options(dir, coin, s, None, verify, Box::new(Recorder { log }));
+    let mut storage = ChainStorage::new(&opts).map_err(|e| format!("ChainStorage::new: {}", e))?;
+    let mut v = Vec::new();
+    for h in s..=last { match storage.get_block(h) { Ok(Some(b)) => v.push(b), Ok(None) => return Err(format!("height {} missing", h)), Err(e) => return Err(format!("height {}: {}", h, e)) } }
+    Ok(v)
 }
